@@ -36,6 +36,15 @@ def run(prop_id, tier, seed, spec):
             for a in axs:
                 if a not in C.STD_AXIOMS:
                     problems.append({"what": "theorem depends on an axiom outside the allow-list", "where": thm + ": " + a})
+    chk = None
+    if tier == "thorough" and ok and cone:
+        # independent re-check of the compiled property file and everything it depends on
+        rc, out = C.sh(["timeout", "3000", "coqchk", "-silent", "-o", "-Q", "theories", "Garr", "Garr.Properties." + prop_id],
+                       cwd=C.COQ, timeout=3100)
+        tail = out[out.find("CONTEXT SUMMARY"):] if "CONTEXT SUMMARY" in out else out[-1500:]
+        chk = {"cmd": "coqchk -silent -o -Q theories Garr Garr.Properties." + prop_id, "rc": rc, "summary": tail[:2500]}
+        if rc != 0:
+            problems.append({"what": "coqchk rejected the compiled development", "log": out[-1500:]})
     discharged = closed if ok and not problems else 0
     # ---- correspondence + search
     res = spec["corr"](tier, seed)
@@ -92,6 +101,8 @@ def run(prop_id, tier, seed, spec):
         "not_covered_by_theorems": spec.get("partial", []),
         "repo": C.repo_head(),
     }
+    if chk:
+        cov["coqchk"] = chk
     for k in ("states", "transitions", "exhaustive", "schedules", "scenarios"):
         if k in res:
             cov[k] = res[k]
